@@ -30,8 +30,8 @@ RULE = ("scenario ids: full product over small value sets (cooperative x {ZAM, t
 ASSUMPTIONS = [
     "iso3166.countries_by_alpha3 keys are three upper-case ASCII letters (checked at the start of every run; hypothesis "
     "`CountriesOk` of the theorems)",
-    "Python re: `benchmark_id_pattern.fullmatch` denotes the deterministic matcher `matchId` (proved equivalent in Lean to the "
-    "denotational grammar idRE for soundness; compared on >= 2000 well- and ill-formed strings per run)",
+    "Python re: `benchmark_id_pattern.fullmatch` denotes the deterministic matcher `matchId` (proved in Lean to accept exactly the "
+    "denotational grammar idRE, C13_pattern_iff_grammar; compared with the real regex on >= 2500 well- and ill-formed strings per run)",
     "str(int) / int(str) are decimal printing / reading (modelled digit by digit; compared on numbers up to 10^40)",
     "input strings are ASCII except where noted (Python's int() also accepts non-ASCII decimal digits in _parse_vehicle_id)",
 ]
